@@ -531,6 +531,7 @@ def run(check):
     seed_ok = bool(dflt) and isinstance(dflt[-1], ast.Constant) and dflt[-1].value == 0x811c9dc5
     px = PathExec(cx, fv, unroll=1, follow_exceptions=False)
     SEED = ('param', seed_name)
+    SEEDS = (SEED, ('const', 0x811c9dc5))      # the parameter, or its default bound in (no caller passes a seed)
     shapes = set()
     for hit in px.run([n for n in gfv.nodes if n.kind == 'stmt' and isinstance(n.ast, ast.Return)]):
       shapes.add(hit.term(hit.node.ast.value, px) if hit.node.ast.value is not None else ('const', None))
@@ -550,9 +551,9 @@ def run(check):
       if a == ('const', 0x01000193):
         a, b = b, a
       prime = b == ('const', 0x01000193)
-      order = isinstance(a, tuple) and a[0] == 'binop' and a[1] == 'BitXor' and SEED in (a[2], a[3])
+      order = isinstance(a, tuple) and a[0] == 'binop' and a[1] == 'BitXor' and any(s_ in (a[2], a[3]) for s_ in SEEDS)
       return prime, mod_ok, order
-    rounds = [one_round(t) for t in shapes if t != SEED]
+    rounds = [one_round(t) for t in shapes if t not in SEEDS]
     if seed_ok and rounds and all(r == (True, True, True) for r in rounds):
       r_b.ok('FNV-1a: offset basis 0x811c9dc5, prime 0x01000193, xor then multiply, mod 2**32', fv.loc())
     else:
@@ -611,6 +612,8 @@ def run(check):
         if isinstance(c, ast.Call) and isinstance(c.func, ast.Attribute) and dotted(c.func.value) == 'self' and c.func.attr in f.cls.methods and \
            f.cls.methods[c.func.attr] not in fns_:
           fns_.append(f.cls.methods[c.func.attr])
+  mgr = repo.cls('carbon.client', 'CarbonClientManager')
+  fns_ += [mgr.methods[k] for k in ('getFactories', 'sendDatapoint') if mgr is not None and k in mgr.methods]
   rule_pure(check, r_rp, fns_)
 
   # ------------------------------------------------------------------ dynamic membership
@@ -648,4 +651,99 @@ def run(check):
                   'destination on the ring)', construct='self.destinationUp(client.destination)')
     else:
       r_d.ok('every reconnect calls destinationUp and re-arms connectionMade', ccm.loc())
+  rule_replicas_total(check, cx, check.rule('R-C06-replicas-total', 1, 'add_node inserts one ring entry for every replica index (collisions are bumped, never dropped)'))
+  rule_list_order(check, cx, check.rule('R-C06-list-order', 1, 'list-valued options (DESTINATIONS) keep the order of the configuration file'))
 
+
+def rule_replicas_total(check, cx, rule):
+  """ConsistentHashRing.add_node puts one ring entry in for EVERY replica index: no iteration of the replica loop can reach
+  the next one (or leave the loop) without an insertion - a colliding replica is moved, never dropped.  (fnv1a_ch replica keys
+  do not contain the server: nodes that share an instance name collide on all of their positions.)"""
+  fn = cx.fn('carbon.hashing', 'ConsistentHashRing.add_node')
+  if not rule.require(fn is not None, 'ConsistentHashRing.add_node not found'):
+    return
+  g = cx.cfg(fn)
+  # the loop(s) that put entries into the ring: the innermost `for` around each insertion (over range(replica_count), over the
+  # replica keys, over precomputed positions ... - whatever sequence of replicas the code walks)
+  def is_insertion(c):
+    d = dotted(c.func) or ''
+    return d.split('.')[-1] in ('insort', 'insort_left', 'insort_right') or (d.split('.')[-1] in ('insert', 'append') and 'ring' in d)
+  owners = []
+  for c in ast.walk(fn.node):
+    if isinstance(c, ast.Call) and is_insertion(c):
+      p_ = getattr(c, '_parent', None)
+      while p_ is not None and not isinstance(p_, ast.For):
+        p_ = getattr(p_, '_parent', None)
+      if p_ is not None and not any(p_ is o for o in owners):
+        owners.append(p_)
+  heads = [n for n in g.nodes if n.kind == 'loop' and any(n.owner is o for o in owners)]
+  if not rule.require(len(heads) >= 1, 'no loop that inserts entries into the ring found in add_node'):
+    return
+  for head in heads:            # one loop, or one per hash type when the loop was unswitched
+    _replica_loop_total(rule, fn, g, head)
+
+
+def _replica_loop_total(rule, fn, g, head):
+  loop = head.owner
+
+  def inserts(n):
+    if n.ast is None or n.kind != 'stmt':
+      return False
+    for c in walk_no_nested(n.ast):
+      if isinstance(c, ast.Call):
+        d = dotted(c.func) or ''
+        if d.split('.')[-1] in ('insort', 'insort_left', 'insort_right') or \
+           (d.split('.')[-1] in ('insert', 'append') and 'ring' in d):
+          return True
+    return False
+  ins = [n for n in g.in_loop_nodes(loop) if inserts(n)]
+  if not rule.require(bool(ins), 'no ring insertion found inside the replica loop'):
+    return
+  start = [y for y, lab in head.succ if isinstance(lab, tuple) and lab[0] == 'T']
+  r = g.reach(start, removed_nodes=set(ins), normal_only=True)
+  inside = g.in_loop_nodes(loop)
+  leaks = [n for n in r if n is head or n not in inside]
+  if leaks:
+    tgt = head if head in leaks else leaks[0]
+    p = g.path(start, tgt, removed_nodes=set(ins), normal_only=True)
+    last = [x for x in (p or []) if x.ast is not None and x is not head]
+    rule.violate('a replica can be left out of the ring', fn, last[-1].ast if last else loop, 'an iteration of the replica loop can end '
+                 'without inserting its entry: the node then owns fewer than replica_count positions (none at all when every '
+                 'position collides), is still counted in nodes/nodes_len and is never returned by get_nodes()',
+                 path=g.describe_path(p))
+  else:
+    rule.ok('every replica index inserts one ring entry', fn.loc(ins[0].ast))
+
+
+ORDER_PRESERVING = {'split', 'strip', 'lstrip', 'rstrip', 'list', 'tuple', 'map', 'filter', 'iter', 'str', 'len', 'bool'}
+
+
+def rule_list_order(check, cx, rule):
+  """a list-valued option (DESTINATIONS) reaches the settings in the order it was written: collisions on the hash ring are
+  resolved by insertion order, and destinations are added in settings order - so the value read from the file may only go
+  through order-preserving steps (split / strip / comprehension / list), never through a set, a sort or a dict."""
+  fn = cx.fn('carbon.conf', 'Settings.readFrom')
+  if not rule.require(fn is not None, 'Settings.readFrom not found'):
+    return
+  splits = [c for c in ast.walk(fn.node) if isinstance(c, ast.Call) and isinstance(c.func, ast.Attribute) and c.func.attr == 'split' and
+            c.args and isinstance(c.args[0], ast.Constant) and c.args[0].value == ',']
+  if not rule.require(bool(splits), "no `.split(',')` of a list-valued option found in Settings.readFrom"):
+    return
+  for sp in splits:
+    top = sp
+    while not isinstance(getattr(top, '_parent', None), ast.stmt):
+      top = top._parent
+    bad = []
+    for x in ast.walk(top):
+      if isinstance(x, (ast.SetComp, ast.DictComp, ast.Set)):
+        bad.append(x)
+      elif isinstance(x, ast.Call):
+        name = (dotted(x.func) or unparse(x.func)).split('.')[-1]
+        if name not in ORDER_PRESERVING:
+          bad.append(x)
+    if bad:
+      rule.violate('list option loses its order', fn, bad[0], 'the value of a list-valued option goes through `%s`, which does not keep '
+                   'the order of the configuration file: the relay builds the ring of a permuted DESTINATIONS list and resolves '
+                   'position collisions differently from the published algorithm' % short(bad[0], 50))
+    else:
+      rule.ok('list options keep file order', fn.loc(sp), short(top, 60))
